@@ -95,11 +95,12 @@ Proof. exact l_relations_step. Qed.
 Print Assumptions C02_relations_step_exact.
 
 (* ... and over every history of imports into one database - create_db, then any number of update() calls, each with
-   its own strategy among error / warning / create_unique / merge (the ones that never delete), ids and Parent values
-   free of TAB/CR/LF: the level-2 rows are exactly the compositions of two level-1 rows starting at a stored feature
-   (closed2: nothing deeper is ever recorded as level 2; complete2: no grandchild of a stored feature is missing -
-   also when the grandparent arrives in a later update than its grandchildren), and no other level occurs *)
-Theorem C02_history_closed : forall call force spec bs st', (forall b, In b bs -> fst b <> SReplace) ->
+   its own strategy, ANY of the five ('replace' removes, besides the replaced version's level-1 parent links, the level-2
+   rows that end at it or run through it - since the repair of F23), ids and Parent values free of TAB/CR/LF: the level-2
+   rows are exactly the compositions of two level-1 rows starting at a stored feature (closed2: nothing deeper or stale is
+   ever recorded as level 2; complete2: no grandchild of a stored feature is missing - also when the grandparent arrives in
+   a later update than its grandchildren), and no other level occurs *)
+Theorem C02_history_closed : forall call force spec bs st',
   imports call force spec bs empty_st = Ok st' -> closed2 st' /\ complete2 st' /\ levels12 st'.
 Proof. exact l_history_from_empty. Qed.
 Print Assumptions C02_history_closed.
